@@ -226,8 +226,13 @@ class Gen:
             elif k < .72 and d > 0 and self.opts['loops']:
                 self.use('for_range')
                 i = self.fresh('i')
-                out.append('%sfor %s in range(%s):' % (ind, i, r.choice(['3', '4', '(%s & 3)' % self.atom(INT, env), '%s & 3' % self.atom(INT, env)])))
+                bound_atom = self.atom(INT, env)
+                out.append('%sfor %s in range(%s):' % (ind, i, r.choice(['3', '4', '(%s & 3)' % bound_atom, '%s & 3' % bound_atom])))
                 self.readonly.add(i)  # loop variable readable, not assignable
+                if bound_atom in env:
+                    # range(n) is evaluated once by Python, `i < n` on every iteration by the emitted C++ (finding range-bound-reevaluated,
+                    # replayed by C01 as a directed shape): generated bodies do not assign to a variable the bound reads
+                    self.readonly.add(bound_atom)
                 body = self.block({**env, i: INT}, ret, d - 1, ind + '\t', True)
                 out.extend(body)
             elif k < .78 and d > 0 and self.opts['loops']:
@@ -470,7 +475,8 @@ class Gen:
                 observed.append(self.last_ext_var)
         out = ['%sdef %s(%s) -> %s:' % (ind, name, sig, rt)]
         out.extend(head)
-        out.extend(self.block(env, rt, 2, ind + '\t'))
+        if not observed:      # (a function that carries forced constructs has no other statements: an early return would hide their values)
+            out.extend(self.block(env, rt, 2, ind + '\t'))
         # recompute env visible at the end: only parameters are certainly bound
         ret = self.expr(rt, {p: t for p, t in env.items()})
         if observed:
@@ -499,11 +505,19 @@ class Gen:
             # some methods carry the name of a list / dict / str method (call sites are specialised by receiver type, not by name)
             taken = [m[0] for m in methods]
             libname = [n for n in ['pop', 'insert', 'copy', 'sort', 'extend', 'get', 'keys', 'values', 'append', 'find', 'count', 'index'] if n not in taken]
-            body, mname, params, rt = self.function('\t', r.choice(libname) if r.random() < .3 else self.fresh('m'), fields)
+            body, mname, params, rt = self.function('\t', r.choice(libname) if (r.random() < .3 or (self.opts.get('force_libname') and not methods)) else self.fresh('m'), fields)
             out.extend(body)
             methods.append((mname, params, rt))
             self.use('method')
         self.classes.append(dict(name=cname, fields=fields, cparams=cparams, methods=methods))
+        callers: list[str] = []
+        for mname, params, rt in methods:
+            if not mname[-1].isdigit():
+                # a call site of the method inside the program (the entry points call methods from the test driver only)
+                fn = self.fresh('use')
+                callers += ['', 'def %s(%s) -> %s:' % (fn, ', '.join(['o: %s' % cname] + ['%s: %s' % (q, t) for q, t in params]), rt),
+                            '\treturn o.%s(%s)' % (mname, ', '.join(q for q, _ in params))]
+                self.use('libname_method_call')
         self.usable_classes.append(self.classes[-1])
         if self.opts['ext'] and r.random() < .6:
             # a factory function returning an instance (its name is an ordinary user identifier)
@@ -516,6 +530,7 @@ class Gen:
         if self.opts['ext'] and self.opts.get('subclass', True) and (self.opts.get('force_subclass') or r.random() < .4):
             out.append('')
             out.extend(self.subclass(self.classes[-1]))
+        out.extend(callers)
         return out
 
     def subclass(self, base: dict) -> list[str]:
